@@ -11,7 +11,11 @@ MANIFEST = {
             "delivered to live endpoints (server idle / with an observation / with a partial Block1 body, client with an outstanding request) "
             "followed by a canary request; a sanitizer abort, a handler call on rejected input or a failed canary is a concrete violation. "
             "The hostile-peer inputs of the block-wise code (C09's crcv/srcv2/xmit1 ops: inconsistent Block/Size options; never-written bytes seen by "
-            "running twice with different allocation poisons) and of the stream readers (C05's tcp/ws ops) run here as well, with the owners' models and oracles.",
+            "running twice with different allocation poisons) and of the stream readers (C05's tcp/ws ops) run here as well, with the owners' models and oracles. "
+            "RFC 9177 (Q-Block): the client's 4.08 missing-blocks parser is transcribed and proved for ALL payloads to stay inside the payload, to terminate, to send "
+            "at most MAX_PAYLOADS blocks and only blocks of its body (q408_never_oob, q408_only_blocks_of_body, q408_bounded), to agree with the server's encoder "
+            "(q408_roundtrip), and the missing-blocks walk over the received-blocks ranges to name exactly the unrecorded numbers below a recorded one "
+            "(qblock_missing_represents); tied to the real code by ops q408 / qenc / qset, and servers holding Q-Block1 / Q-Block2 state are attacked by datagram sequences.",
     "note": "Partial: memory safety, use-after-free, uninitialised reads and UB of the compiled C are observed by sanitizers on the inputs run, not "
             "proved; readers outside the modelled decoder (block, observe, OSCORE, URI, WebSocket code) are exercised by the sequences and owned by "
             "C05/C09/C14/C16/C20's own no-overread theorems. Trusted: Lean kernel (+ propext, Classical.choice, Quot.sound), harnesses, generators, sim_core.h.",
@@ -28,8 +32,11 @@ REQUIRED_ELSEWHERE = {
 NAMESPACE = "Coap.C02"
 REQUIRED_THEOREMS = ["parse_never_oob", "walk_never_oob", "rejected_never_dispatched", "dispatched_is_reference_decoding",
                      "malformed_reply_at_most_reset", "wrong_version_silently_ignored",
-                     "rejected_never_dispatched_session", "oversize_datagram_never_dispatched"]
-RULE = ("hseq: sequences of 1-8 hostile datagrams (targeted at the state: matching token/mid/path, hostile Block/Observe/ETag/OSCORE option values; field-mutated; random) delivered to a live server (idle / holding an observation / holding a partial Block1 body) or to a client with an outstanding request, from the peer's own or a foreign address, followed by a canary request that must be answered; "
+                     "rejected_never_dispatched_session", "oversize_datagram_never_dispatched",
+                     "q408_never_oob", "q408_only_blocks_of_body", "q408_bounded", "q408_roundtrip", "add408Block_some_iff",
+                     "qblock_missing_represents"]
+RULE = ("q408 / qenc / qset: RFC 9177 — a client in the middle of a Q-Block1 transfer is handed 4.08 responses whose missing-blocks payload is well-formed (in / out of order, duplicates, blocks at and beyond the end of the body, beyond 2^20), non-canonical, of another major type, cut anywhere, random, up to 1 KiB; the server's add_408_block encoder on edge numbers; the Q-Block2 payload-set tests and the missing-blocks walk on received-block sets; "
+        "hseq: sequences of 1-8 hostile datagrams (targeted at the state: matching token/mid/path, hostile Block/Observe/ETag/OSCORE option values; field-mutated; random) delivered to a live server (idle / holding an observation / holding a partial Block1 body) or to a client with an outstanding request, from the peer's own or a foreign address, followed by a canary request that must be answered; "
         "hparse: byte strings (blind random at lengths 0..64 and a few long ones; valid encodings; 1-4 field-level mutations of valid "
         "encodings) through the receive gate for udp/tcp/ws at log levels 0, 4, 7, 8 under ASan+UBSan with a null log handler so that "
         "the debug dump in coap_pdu_parse_opt and coap_show_pdu walk the PDU again; non-trivial = distinct input that is not a blind "
@@ -79,7 +86,14 @@ def _p5():
 #   tcp / ws (props/C05.py): byte streams incl. malformed frames and upgrade requests — no crash, no spin (per-line watchdog).
 BORROWED_C09 = ("crcv", "srcv2", "xmit1")
 BORROWED_C05 = ("tcp", "ws")
+# C02's own ops on the Q-Block (RFC 9177) code of src/coap_block.c; they run in C09's harness (harness/block.c #includes
+# coap_block.c, wraps the allocator: ` LEAK=n`, ` UNINIT`), the model is Model/QBlock.lean (Driver/QBlock.lean):
+#   q408  a client in the middle of a Q-Block1 transfer is handed 4.08 responses with arbitrary payloads (the missing-blocks
+#         CBOR sequence): blocks sent again, how the branch ends, no read behind the payload (ASan-poisoned), no leak;
+#   qenc  the server's add_408_block() encoder;  qset  the Q-Block2 payload-set tests and the gap walk of the missing-blocks loops
+QBLOCK_OPS = ("q408", "qenc", "qset")
 HARNESS_FOR_OP = {"hparse": harness, "hseq": harness_seq,
+                  "q408": lambda ctx: _p9().harness(ctx), "qenc": lambda ctx: _p9().harness(ctx), "qset": lambda ctx: _p9().harness(ctx),
                   "crcv": lambda ctx: _p9().harness(ctx), "srcv2": lambda ctx: _p9().harness(ctx), "xmit1": lambda ctx: _p9().harness(ctx),
                   "tcp": lambda ctx: _p5().harness(ctx), "ws": lambda ctx: _p5().harness(ctx)}
 
@@ -97,6 +111,109 @@ def gen_borrowed(ctx, escalate=False):
 
 def hx(b):
     return b.hex() if b else "-"
+
+
+def cbor_uint(rng, v, canonical=True):
+    """one CBOR unsigned integer; non-canonical = a longer form than needed (a decoder must cope)"""
+    forms = [f for f, lim in ((0, 24), (1, 256), (2, 65536), (4, 2 ** 32), (8, 2 ** 64)) if v < lim]
+    f = forms[0] if canonical or rng.random() < 0.6 else rng.choice(forms)
+    if f == 0:
+        return bytes([v])
+    return bytes([{1: 24, 2: 25, 4: 26, 8: 27}[f]]) + v.to_bytes(f, "big")
+
+
+def missing_blocks_payload(rng, nb):
+    """the payload of a 4.08 (application/missing-blocks+cbor-seq) a hostile server sends to a client whose body has nb blocks:
+    well-formed lists (in order, out of order, duplicates, numbers at and beyond the end of the body, beyond 2^20, 2^32-1),
+    non-canonical and 8-byte integers, other major types, reserved additional information, cut anywhere (in particular right
+    behind an initial byte and one byte short), random bytes, up to 1 KiB"""
+    c = rng.random()
+    if c < 0.08:
+        return G.rbytes(rng, rng.choice([1, 2, 3, 4, 5, 8, 40]))
+    edge = [0, 1, nb - 1, nb - 1, nb, nb + 1, 23, 24, 255, 256, 65535, 65536, 2 ** 20 - 1, 2 ** 20, 2 ** 31, 2 ** 32 - 1]
+    n = rng.choice([1, 1, 2, 3, 5, 12, 300]) if c < 0.97 else 1
+    out = b""
+    for _ in range(n):
+        v = rng.choice(edge) if rng.random() < 0.35 else rng.randint(0, max(nb + 2, 3))
+        item = cbor_uint(rng, v, rng.random() < 0.8)
+        r = rng.random()
+        if r < 0.05:
+            item = bytes([item[0] | rng.choice([0x20, 0x40, 0x80, 0xe0])]) + item[1:]         # another major type
+        elif r < 0.09:
+            item = bytes([rng.choice([27, 28, 29, 30, 31])]) + item[1:]                       # 8-byte / reserved / indefinite
+        elif r < 0.12:
+            item = bytes([26]) + G.rbytes(rng, 4)
+        out += item
+    r = rng.random()
+    if r < 0.3:
+        out = out[:rng.randint(1, len(out))]                                                  # cut anywhere
+    elif r < 0.4:
+        out += bytes([rng.choice([24, 25, 26, 26, 26, 27])]) + G.rbytes(rng, rng.choice([0, 1, 2, 3, 3, 3]))   # an initial byte and too few bytes
+    return out[:1024]
+
+
+def gen_qblock(ctx, n):
+    rng = ctx.rng
+    out = []
+    for _ in range(n):
+        szx = rng.choice([0, 0, 0, 1, 2, 6])
+        chunk = 16 << szx
+        nb = rng.choice([2, 3, 7, 11, 25, 40])
+        body_len = (nb - 1) * chunk + rng.choice([1, chunk // 2, chunk - 1, chunk])
+        fmt = rng.choice(["272"] * 12 + ["-", "0", "60", "273", "65535"])
+        typ = rng.choice([1] * 10 + [0, 2, 3])
+        items = [hx(missing_blocks_payload(rng, nb)) for _ in range(rng.choice([1, 1, 2, 3]))]
+        if rng.random() < 0.03:
+            items = ["-"] if len(items) == 1 else items
+        out.append("q408 %d %d %d %d %s %d %s" % (szx, body_len, rng.randint(0, 255), rng.choice([1, 2, 3, 10, 10, 10, 255]), fmt, typ,
+                                                  ";".join(i for i in items if i != "-") or "-"))
+    for _ in range(n // 3):
+        k = rng.choice([0, 1, 2, 5, 30])
+        ns = [rng.choice([0, 23, 24, 255, 256, 65535, 65536, 2 ** 20 - 1, 2 ** 20, 2 ** 20 + 1, 2 ** 31 - 1]) if rng.random() < 0.4
+              else rng.randint(0, 2 ** 20 + 10) for _ in range(k)]
+        out.append("qenc %s" % (",".join(map(str, ns)) or "-"))
+    for _ in range(n // 2):
+        mp = rng.choice([1, 2, 3, 10, 10, 16])
+        top = rng.choice([8, 30, 60, 250])
+        k = rng.choice([0, 1, 2, 4, 8, 20])
+        c = rng.random()
+        ns = [rng.randint(0, top) for _ in range(k)]
+        if c < 0.3:
+            ns.sort()
+        elif c < 0.4:
+            ns.sort(reverse=True)
+        elif c < 0.6:
+            ns = list(range(0, rng.randint(0, top))) + ns          # a received prefix, then scattered blocks
+        out.append("qset %d %d %s" % (mp, rng.choice([0, 0, 1, 2, top // mp, rng.randint(0, 30)]), ",".join(map(str, ns)) or "-"))
+    return out
+
+
+def judge_qblock(ctx, c):
+    i, m = c["impl"], c["model"]
+    if i is None or i.startswith("crash"):
+        return ("spec", "the real Q-Block code aborted on this input: %s" % i)
+    if " UNINIT" in i:
+        return ("spec", "what the client does with this 4.08 depends on bytes nobody wrote: %s" % i[:150])
+    if " LEAK=" in i:
+        return ("spec", "memory is leaked on this input: %s" % i[:150])
+    w = c["input"].split()
+    if w[0] == "q408" and not i.startswith("bad-op"):
+        # I against the property: whatever the payload says, a block sent again is a block of the body, with its exact bytes' length
+        szx, body_len = int(w[1]), int(w[2])
+        chunk = 16 << szx
+        for item in i.split()[2:-1] if len(i.split()) > 3 else []:
+            for it in item.split(","):
+                tx = it.split(":", 1)[1].rsplit("/", 1)[0]
+                for t in ([] if tx == "-" else tx.split("+")):
+                    if not t.startswith("b"):
+                        return ("spec", "a retransmission without Q-Block1 option: %s" % t)
+                    num, mm, sz = map(int, t[1:].split(":")[0].split("."))
+                    ln = int(t.split(":")[1])
+                    if num * chunk >= body_len or sz != szx or ln != min(chunk, body_len - num * chunk) or mm != (1 if (num + 1) * chunk < body_len else 0):
+                        return ("spec", "a 4.08 made the client send a block that is not a block of its body: %s (body %d bytes, block size %d)" % (t, body_len, chunk))
+    if i != m:
+        return ("tie", "Q-Block op: implementation %s, model %s" % (i[:200], (m or "")[:200]))
+    return None
 
 
 def generate(ctx, escalate=False):
@@ -130,10 +247,11 @@ def generate(ctx, escalate=False):
         out.append("hparse %s %d %s" % (proto, lvl, hx(b)))
     out += gen_sequences(ctx, (12000 if ctx.thorough() else 1500) * (2 if escalate else 1))
     out += gen_borrowed(ctx, escalate)
+    out += gen_qblock(ctx, (6000 if ctx.thorough() else 1200) * (2 if escalate else 1))
     return out
 
 
-SCENARIOS = ["idle", "obs", "blk", "blk0", "cli", "b2", "b2", "osc", "osc"]
+SCENARIOS = ["idle", "obs", "blk", "blk0", "cli", "b2", "b2", "osc", "osc", "qb1", "qb1", "qb2", "qb2"]
 
 
 def oscore_aimed(rng):
@@ -249,8 +367,46 @@ def block_storm(rng):
     return out
 
 
+def qblock_dgram(rng, scen):
+    """RFC 9177 traffic aimed at a server that holds a partial Q-Block1 body (qb1: 80 bytes announced, block 0 of 16 received)
+    or the body of /L for Q-Block2 (qb2: 100 bytes = blocks 0..6 of 16): payload sets out of order / duplicated / beyond the
+    end, SZX changing in mid-transfer (incl. 7 = BERT on a datagram transport), M bits that contradict the sizes, Size1 that
+    changes, Q-Block and Block options mixed, GETs with SEVERAL Q-Block2 options (the missing-blocks form) and `continue` requests"""
+    tok = rng.choice([b"\xab\xcd", b"\xab\xcd", b"\xab\xcd", G.rbytes(rng, rng.randint(0, 8))])
+    mid = rng.randint(0x1001, 0x1200)
+    typ = rng.choice([1, 1, 1, 0])
+
+    def blkval(num, m, szx):
+        return ((num << 4) | (m << 3) | szx).to_bytes(3, "big").lstrip(b"\0")
+    szx = rng.choice([0, 0, 0, 0, 1, 2, 6, 7])
+    bs = 16 << min(szx, 6)
+    if scen == "qb1" and rng.random() < 0.75:
+        num = rng.choice([0, 1, 1, 2, 3, 4, 4, 5, 9, 10, 11, 19, 20, 1000, 2 ** 20 - 1])
+        m = rng.choice([1, 1, 1, 0])
+        opts = [(11, rng.choice([b"b", b"b", b"b", b"r"])), (rng.choice([19, 19, 19, 19, 27]), blkval(num, m, szx))]
+        if rng.random() < 0.6:
+            opts.append((60, rng.choice([80, 80, 80, 16, 17, 81, 2 ** 16, 2 ** 32 - 1, 0]).to_bytes(4, "big").lstrip(b"\0")))
+        if rng.random() < 0.1:
+            opts.append((27, blkval(rng.randint(0, 5), rng.randint(0, 1), rng.choice([0, 1]))))       # Block1 AND Q-Block1
+        if rng.random() < 0.15:
+            opts.append((292, G.rbytes(rng, rng.randint(0, 8))))
+        pl = G.rbytes(rng, rng.choice([bs, bs, bs, bs - 1, bs + 1, 1, 0, 2 * bs]) if bs <= 256 else rng.choice([bs, 16, 0]))
+        return G.encode("udp", typ, rng.choice([3, 3, 3, 2, 5]), mid, tok, sorted(opts, key=lambda o: o[0]), pl)
+    nums = [rng.choice([0, 1, 2, 5, 6, 6, 7, 8, 10, 63, 2 ** 20 - 1]) for _ in range(rng.choice([1, 1, 2, 3, 7, 12]))]
+    opts = [(11, rng.choice([b"L", b"L", b"L", b"r", b"b"]))] + [(31, blkval(n, rng.choice([0, 0, 1]), szx if rng.random() < 0.8 else rng.randint(0, 7))) for n in nums]
+    if rng.random() < 0.1:
+        opts.append((23, blkval(rng.randint(0, 7), 0, rng.choice([0, 1]))))                           # Block2 AND Q-Block2
+    if rng.random() < 0.1:
+        opts.append((6, G.rbytes(rng, rng.randint(0, 2))))
+    return G.encode("udp", typ, rng.choice([1, 1, 1, 5]), mid, tok, sorted(opts, key=lambda o: o[0]), b"")
+
+
 def targeted(rng, scen):
     """a datagram aimed at the state the scenario set up: matching token/mid/paths, hostile option values"""
+    if scen in ("qb1", "qb2"):
+        if rng.random() < 0.8:
+            return qblock_dgram(rng, scen)
+        scen = "blk" if scen == "qb1" else "b2"
     tok = rng.choice([b"\xab\xcd", b"\xab\xcd", b"", G.rbytes(rng, rng.randint(1, 8))])
     mid = rng.choice([0x1000, 0x1001, 0x0fff, rng.randint(0, 0xFFFF)])
     typ = rng.randint(0, 3)
@@ -367,6 +523,8 @@ def judge(ctx, c):
         return _p9().judge(ctx, c)
     if op in BORROWED_C05:
         return _p5().judge(ctx, c)
+    if op in QBLOCK_OPS:
+        return judge_qblock(ctx, c)
     i, m = c["impl"], c["model"]
     if i is None or i.startswith("crash"):
         return ("spec", "the real code aborted on this input: %s" % i)
@@ -383,6 +541,8 @@ def nontrivial(c):
     w = c["input"].split()
     if w[0] in BORROWED_C09 or w[0] in BORROWED_C05:
         return True
+    if w[0] in QBLOCK_OPS:
+        return w[-1] != "-"
     return len(w[-1]) >= 8
 
 
@@ -390,6 +550,8 @@ def classify(c):
     w = c["input"].split()
     if w[0] in BORROWED_C09 or w[0] in BORROWED_C05:
         return "borrowed:" + w[0]
+    if w[0] in QBLOCK_OPS:
+        return "qblock:%s:%s" % (w[0], ((c["impl"] or "?").split() + ["?"] * 3)[2].split(":")[0] if w[0] == "q408" else "")
     if w[0] == "hseq":
         return "seq:%s:%s" % (w[1], w[3])
     return "%s:lvl%s:%s" % (w[1], w[2], (c["model"] or "?").split()[0])
